@@ -37,7 +37,48 @@ SPEC = {
 }
 
 
+def lazy_generators(ctx):
+    """T6h: a generator method of the cache (its body runs when the generator is *iterated*, not when it is called) that is
+    called inside a critical section is also consumed there -- as the iterable of a for loop / comprehension, or as the argument
+    of list / tuple / dict / set / sorted / sum / join / a `yield from`.  A generator object stored in a variable or returned from
+    the section is walked after the lock is released: the snapshot it was meant to be is no longer atomic."""
+    import ast
+    from sa.index import FuncInfo
+    from rules.common import txt
+    prog = ctx.program
+    for cls in ('cacheutils.LRI', 'cacheutils.LRU'):
+        ci = prog.cls(cls)
+        gens = set()
+        for nm, m in ci.members.items():
+            if isinstance(m, FuncInfo) and any(isinstance(x, (ast.Yield, ast.YieldFrom)) for x in ast.walk(m.node)):
+                gens.add(nm)
+        base = prog.cls('cacheutils.LRI')
+        for nm, m in base.members.items():
+            if isinstance(m, FuncInfo) and any(isinstance(x, (ast.Yield, ast.YieldFrom)) for x in ast.walk(m.node)):
+                gens.add(nm)
+        for nm, m in ci.members.items():
+            if not isinstance(m, FuncInfo):
+                continue
+            par = {}
+            for x in ast.walk(m.node):
+                for ch in ast.iter_child_nodes(x):
+                    par[ch] = x
+            for c in ast.walk(m.node):
+                if not (isinstance(c, ast.Call) and isinstance(c.func, ast.Attribute) and txt(c.func.value) == 'self' and c.func.attr in gens):
+                    continue
+                up = par.get(c)
+                consumed = (isinstance(up, (ast.For, ast.comprehension)) and up.iter is c) or isinstance(up, ast.YieldFrom) or \
+                    (isinstance(up, ast.Call) and c in up.args and (
+                        (isinstance(up.func, ast.Name) and up.func.id in ('list', 'tuple', 'dict', 'set', 'frozenset', 'sorted', 'sum', 'max',
+                                                                           'min', 'any', 'all', 'len')) or
+                        (isinstance(up.func, ast.Attribute) and up.func.attr in ('join', 'extend', 'update'))))
+                ctx.ob('T6h', m.fq, 'the generator self.%s() is consumed where it is created (a generator object carried out of the '
+                       'critical section is walked without the lock)' % c.func.attr, consumed,
+                       loc='%s:%d' % (m.module.relpath, c.lineno), detail=txt(up)[:80] if up is not None else '')
+
+
 def run(ctx):
+    lazy_generators(ctx)
     from rules.common import require_fields
     require_fields(ctx.program, 'cacheutils.LRI', ['_lock', '_anchor', '_link_lookup'])
     for cls in ('cacheutils.LRI', 'cacheutils.LRU'):
@@ -51,6 +92,8 @@ SPEC['explanation'] += " T6o: only self's own lock is ever acquired in the class
 SPEC['decided'] += ['lock order (own lock only)']
 SPEC['explanation'] += " T6o also recognises another instance's lock held in a local (`l = other._lock` / getattr)."
 SPEC['decided'] += []
+SPEC['explanation'] += ' T6h: a generator method called inside a critical section is consumed there (no lazily walked snapshot).'
+SPEC['decided'] += ['no generator object leaves a critical section']
 MANIFEST = {
     'technique': 'lock-discipline (lockset) analysis over all CFG paths of every public operation, receiver-sensitive inlining',
     'text': ('Decides the mutual-exclusion clause of C03 completely for the code as written: on every control-flow '
